@@ -114,6 +114,14 @@ def norm(t):
         if x[0] == 'bool':
             return ('bool', not x[1])
         return ('un', 'Not', x)
+    if h == 'app' and len(t) == 4 and len(t[2]) == 1 and isinstance(t[1], str) and (
+            (t[1] == 'core::clone::Clone::clone' and t[3] and isinstance(t[3][0], str)
+             and (t[3][0] in COPY_TYPES or t[3][0].startswith(('&', 'core::marker::PhantomData<', '*const ', '*mut '))) and not t[3][0].startswith('&mut'))
+            or _COPY_CLONE.match(t[1])):
+        if 'PhantomData' in t[1] or (t[3] and isinstance(t[3][0], str) and t[3][0].startswith('core::marker::PhantomData<')):
+            return ('agg', ('adt', 'core::marker::PhantomData', 0, 'PhantomData'), ())      # the one value of a zero-sized marker
+        a = norm(t[2][0])
+        return a[1] if a[0] == 'refval' else ('deref', a)       # cloning a Copy value is copying it
     if h == 'app' and len(t) == 4 and t[1] in CONV_APPS and len(t[2]) == 1 and isinstance(t[3], tuple):
         # the four spellings of one sample conversion (no Sample impl overrides the provided methods: C03 sample.no-override;
         # the blanket ToSample impl forwards to FromSample: C01 dispatch.generic) -- one canonical application
@@ -131,6 +139,8 @@ def norm(t):
     return tuple(norm(x) for x in t)
 
 
+_COPY_CLONE = re.compile(r'^(core::clone::impls::<impl core::clone::Clone for (&T|\*const T|\*mut T|[a-z0-9]+|!)>::clone|<core::marker::PhantomData<T> as core::clone::Clone>::clone)$')
+COPY_TYPES = ('usize', 'isize', 'u8', 'u16', 'u32', 'u64', 'u128', 'i8', 'i16', 'i32', 'i64', 'i128', 'f32', 'f64', 'bool', 'char', '()')
 CONV_APPS = {'dasp_sample::Sample::to_sample': 'to', 'dasp_sample::conv::ToSample::to_sample_': 'to',
              'dasp_sample::Sample::from_sample': 'from', 'dasp_sample::conv::FromSample::from_sample_': 'from',
              'dasp_sample::Sample::to_signed_sample': 'Signed', 'dasp_sample::Sample::to_float_sample': 'Float'}
